@@ -23,7 +23,7 @@ COMPS = [
     V.Component("peercluster", monitors=MON + ["leak"]),
     # the whole PPPoE server around its IPPool: free+allocated = size and allocated = address-holding sessions (+ sweeps)
     # after every frame; the monitor is proved silent on the model (Spec.C16PppoeWhole.monitor_silent_on_model)
-    V.Component("pppoesrv", monitors=["residue", "conservation", "obs-roundtrip"]),
+    V.Component("pppoesrv", monitors=["residue", "conservation", "obs-roundtrip", "held-free", "pool-entry"]),
 ]
 LEVEL = ("Counting, exhaustion-only-when-full and release-returns are theorems over the Lean pool models for ALL "
          "operation histories and geometries; the models are tied to the real Go code by differential execution, and "
